@@ -445,6 +445,30 @@ pub fn all_suites(thorough: bool) -> Vec<Suite> {
     // room for one small record plus one 5000-byte record, not two big ones
     ml.max_memory = Some(2 * overhead + 2 + 5000 + 16);
     v.push(suite("mem-limit", ml, std_tables(), limit_ops(), d(6, 7)));
+    // keys at the limits of the length field: 65535 / 65536 (u16 boundary) and the documented maximum (100 KiB)
+    {
+        let mut t = std_tables();
+        t.keys = vec![vec![b'A'; 65535], vec![b'B'; 65536], vec![b'C'; 100 * 1024]];
+        let mut ops = Vec::new();
+        for k in 0..3u8 {
+            ops.push(ins(k, V_X));
+            ops.push(ins(k, V_JSON));
+            ops.push(Op::Delete { k, ts: 0 });
+        }
+        ops.push(Op::Incr { k: 1, delta: 1, ts: 0, ttl: 0 });
+        ops.push(Op::Get(1));
+        ops.push(Op::Len);
+        let mut cfg = Cfg::memory();
+        cfg.ttl = true;
+        ops.push(ins_ttl(2, V_X, 1, 0));
+        ops.push(Op::Advance(3));
+        ops.push(Op::Sweep);
+        v.push(suite("mem-bigkey", cfg, t.clone(), ops.clone(), d(3, 4)));
+        // the same with a limit that admits the three records and not a byte more
+        let mut lim = cfg;
+        lim.max_memory = Some(3 * overhead + 65535 + 65536 + 100 * 1024 + 3 * 7);
+        v.push(suite("mem-bigkey-limit", lim, t, ops, d(3, 4)));
+    }
     let me = Cfg::memory();
     v.push(suite("mem-errors", me, error_tables(&me), error_ops(), d(3, 3)));
     for (format, cache) in [(3, true), (3, false), (2, true), (1, true)] {
